@@ -29,6 +29,9 @@ THEOREMS = ['Scalibr.Unpack.C06_unpack_contained_partial', 'Scalibr.Unpack.C06_r
             'Scalibr.Unpack.linksInsideB_of_Contained', 'Scalibr.Unpack.C06_fuel_monotone', 'Scalibr.Unpack.C06_fuel_adequate_nolink',
             'Scalibr.Unpack.C06_hypothesis_only_sufficient', 'Scalibr.Unpack.C06_unpack_contained_fails', 'Scalibr.Unpack.C06_unpack_not_contained', 'Scalibr.Unpack.C06_unpack_writes_outside']
 
+THEOREMS_LOAD = ['Scalibr.ImageLife.C06_load_failed_restores', 'Scalibr.ImageLife.C06_load_cleanup_restores', 'Scalibr.ImageLife.C06_load_others_untouched',
+                 'Scalibr.ImageLife.loop_failed', 'Scalibr.ImageLife.loop_others']
+
 KEY = 'C06/lexical-target-outside-root'
 DEPTH = 30
 PRISTINE = {'@/sb': 'd', '@/sb/secret': 'f0', '@/sb/target': 'd', '@/sb/target-evil': 'd'}
@@ -155,10 +158,11 @@ def run(ctx):
     ctx.rule = ('case = tar stream of 1..6 entries; names of 1..3 segments from a,b,c,"..",".","",target,target-evil,secret,sb, a 200-byte and a 300-byte name, optionally absolute or with a '
                 'trailing slash (45% of cases use plain names so that the links matter); regular files, symbolic links (relative, absolute, "/", ".", "x/..", "../x", empty), hard links, '
                 'directories, fifos; 20% start with a link followed by a write through it. non-trivial = something exists below the target afterwards; distinct = distinct case lines')
-    ok, _ = ctx.lean_build(['Scalibr.Properties.C06', 'drv_c06'])
-    proofs_ok = ctx.audit(['Scalibr.Properties.C06'], THEOREMS)
+    ok, _ = ctx.lean_build(['Scalibr.Properties.C06', 'Scalibr.Properties.C06Load', 'drv_c06', 'drv_c06l'])
+    proofs_ok = ctx.audit(['Scalibr.Properties.C06', 'Scalibr.Properties.C06Load'], THEOREMS + THEOREMS_LOAD)
     if ctx.tier == 'thorough':
         proofs_ok = ctx.leanchecker('Scalibr.Properties.C06') and proofs_ok
+        proofs_ok = ctx.leanchecker('Scalibr.Properties.C06Load') and proofs_ok
     n = {'quick': 6000, 'thorough': 120000}[ctx.tier]
     ctx.run_driver = lambda exe, cases, timeout=3600: _parallel_driver(ctx, exe, cases, timeout, procs=14)
     memo = {}
@@ -175,6 +179,11 @@ def run(ctx):
     def classify(case, fi, fm):
         return 'err=%s contained=%s h=%s' % (fi.get('err', fi.get('_')), fm.get('contained'), fm.get('h'))
 
+    if ctx.replay and any(l.startswith('load ') for l in open(ctx.replay)):
+        load_stream(ctx, replay=ctx.replay)          # a replay file of the load stream
+        if not proofs_ok:
+            lib.proof_failed(ctx, 'Scalibr.Properties.C06')
+        return
     if ctx.replay and any(l.startswith('scan ') for l in open(ctx.replay)):
         scan_stream(ctx, replay=ctx.replay)          # a replay file of the scan stream
         if not proofs_ok:
@@ -185,6 +194,7 @@ def run(ctx):
                         finding_class=lambda c, a, b: judge(c, a, b)[1], sample_every=997)
     if not ctx.replay:
         scan_stream(ctx)
+        load_stream(ctx)
     if not proofs_ok:
         lib.proof_failed(ctx, 'Scalibr.Properties.C06')
 
@@ -298,3 +308,55 @@ def scan_stream(ctx, replay=None):
         'os/{dpkg,apk,rpm,pacman,portage,snap,flatpak,nix,cos}, os/kernel/{module,vmlinuz}: etc/os-release, usr/lib/os-release (input.FS)']
     if panics:
         ctx.notes.append('scans that panicked inside Scan (recovered by the harness; a C02 matter, no file-system change attributed): ' + ' || '.join('%s: %s' % kv for kv in panics.items()))
+
+
+KIND = {'c': 'a regular file followed by an entry beneath it', 't': 'archive cut inside an entry body', 'h': 'archive cut inside a header',
+        'l': 'symlink with an empty link name', 'n': 'a name longer than NAME_MAX', 'd': 'file at a path that is already a directory (skipped)',
+        'b': 'file of exactly MaxFileBytes (fail-open)', 'o': 'symlink pointing outside the root (fail-open)', 'u': 'unsupported entry type (skipped)',
+        'v': 'invalid config (fails before any directory exists)', '-': 'nothing wrong'}
+
+
+def load_stream(ctx, replay=None):
+    """the temp-dir life cycle of image.FromV1Image / CleanUp (load path of C06): correspondence with Model/ImageLife.lean and,
+    as the oracle, the property's sentence itself on the implementation's reply"""
+    binary = ctx.go_build('c06load')
+    if binary is None:
+        ctx.violation('harness c06load does not build against /repo: %s' % getattr(ctx, 'go_log', '')[-1500:], ['# c06load'], found_input=False, name='build-c06load')
+        return
+    args = ['-replay', replay] if replay else ['-seed', str(ctx.seed), '-n', str({'quick': 200, 'thorough': 3000}[ctx.tier])]
+    rows, ok = ctx.run_gen(binary, args, timeout=3000)
+    if not ok:
+        ctx.violation('c06load crashed: ' + '; '.join(ctx.notes[-1:]), ['# see notes'], found_input=False, name='gencrash-c06load')
+    model = ctx.run_driver('drv_c06l', [c for c, _ in rows]) if rows else []
+    reported, mism = 0, 0
+    for (case, reply), mod in zip(rows, model):
+        f, m = lib.fields(reply), lib.fields(mod)
+        t = case.split(' ')
+        ctx.add_case(case, t[2] != '-', 'load kind=%s err=%s' % (t[3] if len(t) > 3 else '?', f.get('err', reply)))
+        what = None
+        if f.get('_') == 'panic':
+            what = 'FromV1Image / CleanUp panicked'
+        elif f.get('err') == '1' and f.get('left') != '0':
+            what = 'a FAILED load left %s entr%s in TMPDIR (%s)' % (f.get('left'), 'y' if f.get('left') == '1' else 'ies', ','.join(_dec_items(f.get('names'))))
+        elif f.get('err') == '0' and (f.get('img') != '1' or f.get('left') != '1'):
+            what = 'after a successful load TMPDIR holds %s entries and the image directory %s' % (f.get('left'), 'exists' if f.get('img') == '1' else 'is not below TMPDIR')
+        elif f.get('clean') != '0':
+            what = 'after CleanUp TMPDIR still holds %s entries (%s)' % (f.get('clean'), ','.join(_dec_items(f.get('names'))))
+        elif f.get('out') != '-':
+            what = 'the load changed something outside its directory (working directory / sibling of TMPDIR)'
+        desc = 'image of %s layer(s); layer %s: %s, after %s good entries' % (t[1], t[2], KIND.get(t[3], t[3]), t[4]) if len(t) == 5 else case
+        if what:
+            if reported < 3:
+                reported += 1
+                ctx.violation('image load life cycle: %s. %s' % (what, desc), ['# ' + desc, case + '\t' + reply + '\t' + mod])
+            continue
+        if any(f.get(k) != m.get(k) for k in ('err', 'left', 'img', 'clean')):
+            mism += 1
+            ctx.mismatches.append(case)
+            if mism == 1:
+                ctx.violation('correspondence c06load/drv_c06l no longer checks (%s): implementation %s, model %s' % (desc, reply, mod),
+                              [case + '\t' + reply + '\t' + mod], found_input=False, name='corr-c06load')
+    ctx.extra['load_observation'] = ('%d image loads, each with a fresh TMPDIR and working directory: every combination of 1..4 layers x failing layer x '
+                                     '{file-then-child, cut body, cut header, empty link name, over-long name, and the fail-open / skipped kinds} x 0..2 good '
+                                     'entries first, plus random ones; a failed load must leave TMPDIR empty, a successful one exactly the image directory and '
+                                     'nothing after CleanUp, and nothing outside may change' % len(rows))
